@@ -41,7 +41,7 @@ DEGEN = {"dna": set("RYMKBVDHWSN?"), "rna": set("RYMKBVDHWSN?"), "protein": set(
 def bounds(tier):
     return {
         "quick": {"rows": [2], "deep_len": 2, "deep_depth": 2, "shallow_len": 3, "shallow_depth": 1, "moltypes": ["dna"]},
-        "thorough": {"rows": [2, 3], "deep_len": 3, "deep_depth": 2, "shallow_len": 5, "shallow_depth": 1, "moltypes": ["dna", "rna", "protein"]},
+        "thorough": {"rows": [2, 3], "deep_len": 2, "deep_len_dna_2rows": 3, "deep_depth": 2, "shallow_len": 4, "shallow_depth": 1, "moltypes": ["dna", "rna", "protein"]},
     }[tier]
 
 
@@ -526,7 +526,8 @@ def shards(tier, seed):
     for mol in b["moltypes"]:
         for nrows in b["rows"]:
             for L in range(1, b["shallow_len"] + 1):
-                depth = b["deep_depth"] if L <= b["deep_len"] else b["shallow_depth"]
+                deep = b.get("deep_len_dna_2rows", b["deep_len"]) if (mol == "dna" and nrows == 2) else b["deep_len"]
+                depth = b["deep_depth"] if L <= deep else b["shallow_depth"]
                 if nrows == 3 and L > 3:
                     continue
                 if nrows == 3 and L > 2:
